@@ -124,6 +124,24 @@ def http(case, res):
                 b[i] = rng.choice([0, 0x20, 0x0a, 0x0d, 0x3a, 0x7f, 0xff, b[i] ^ 0x20, b[i] ^ 1, ord("\t")])
                 exchange(bytes(b), "unclear", label="corrupt")
             S.stats["corruption_points"] += len(range(part, len(d), nparts))
+        elif mode == "shutdown-midway":
+            # SIGTERM finds connections in every stage of an exchange: nothing sent, inside the request line, request line
+            # accepted, inside the header block, upgraded; the shutdown sequence must release each of them exactly once
+            tn = prm.get("template", "canonical")
+            d = templates()[tn]
+            eol = d.index(b"\r\n") + 2
+            cuts = sorted(set([0, 1, eol - 3, eol - 1, eol, eol + 1, eol + 20, len(d) - 5, len(d) - 2, len(d) - 1, len(d)] + [rng.randrange(len(d)) for _ in range(4)]))
+            rng.shuffle(cuts)
+            for k in cuts[:prm.get("conns", 9)]:
+                c = S.connect("m%d" % k, "ws")
+                c.ledger, c.track_input, c.may_close = False, False, True
+                if k:
+                    S.send_bytes(c, d[:k], pick_chunks(rng))
+                S.settle()
+                S.sig("open-at-sigterm", "nothing" if k == 0 else "in-request-line" if k < eol else "request-line-done" if k == eol else "in-headers" if k < len(d) else "upgraded")
+            S.stats["exchanges"] += len(cuts)
+            S.shutdown()
+            return [mode, tn, len(cuts)]
         else:   # random mutations of all templates and invalid variants
             pool = list(templates().values()) + list(invalid_by_construction().values()) + hostile.http_requests(rng)
             for _ in range(prm.get("count", 60)):
